@@ -519,6 +519,19 @@ def h_refuse(sx, cfg):
         other_mesh = df.Mesh(p1=p1, p2=p2, n=n)
         g = df.Field(other_mesh, nvdim=nv, value=fa)
         expect = (ValueError,)
+        if nv > 1:
+            # a scalar field on the other mesh as well (scalar fields broadcast over components -- but only on one mesh), both orders
+            gs = df.Field(other_mesh, nvdim=1, value=fa[..., :1])
+            for name, fn in (("add", lambda x, y: x + y), ("sub", lambda x, y: x - y), ("mul", lambda x, y: x * y), ("div", lambda x, y: x / y)):
+                for tag, a_, b_ in (("vector-scalar", f, gs), ("scalar-vector", gs, f)):
+                    try:
+                        fn(a_, b_)
+                    except ValueError:
+                        sx.check(f"shifted-{tag}-{name}-refused", True)
+                    except Exception as ex:  # noqa: BLE001
+                        sx.check(f"shifted-{tag}-{name}-refused", False, exc=f"{type(ex).__name__}: {ex}")
+                    else:
+                        sx.check(f"shifted-{tag}-{name}-refused", False, exc="accepted")
     elif kind == "other_n":
         n2 = list(n)
         n2[0] += 1
